@@ -330,8 +330,21 @@ class C12(Hist1Prop):
         nreg = 1 + max([o.get("out", 0) for o in ops] + [o.get("h", 0) for o in ops])
         nd = case.get("kind") == "histn"
         for r in range(nreg):
-            for extra in ("fill_in", "fill_far", "imul", "fill_n"):
+            for extra in ("fill_in", "fill_far", "imul", "fill_n", "adaptive_fill_far"):
                 c = copy.deepcopy(case)
+                if extra == "adaptive_fill_far":
+                    # a shared fixed-width binning that is not adaptive yet: switch adaptivity on through one object, then grow it
+                    if nd:
+                        for ax in (None, 0, 1, 2):
+                            c2 = copy.deepcopy(c)
+                            c2["ops"].append({"op": "set_adaptive", "h": r, "value": True, "axis": ax, "maybe_refused": True})
+                            c2["ops"].append({"op": "fill", "h": r, "_coord": "27/2", "w": "1", "wk": "pyint", "maybe_refused": True})
+                            yield c2
+                    else:
+                        c["ops"].append({"op": "set_adaptive", "h": r, "value": True, "maybe_refused": True})
+                        c["ops"].append({"op": "fill", "h": r, "v": "35/2", "w": "2", "wk": "pyint"})
+                        yield c
+                    continue
                 if nd:
                     if extra == "imul":
                         c["ops"].append({"op": "imul", "h": r, "c": "3", "k": "pyint"})
@@ -381,7 +394,7 @@ class C12(Hist1Prop):
             writes = {op.get("out")} if "out" in op and op["op"] not in ("merge", "normalize") else set()
             if op["op"] in ("merge", "normalize", "partial_normalize"):
                 writes = {op["h"]} if op.get("inplace") else {op.get("out")}
-            if op["op"] in ("fill", "fill_n", "iadd", "isub", "imul", "idiv", "set_dtype"):
+            if op["op"] in ("fill", "fill_n", "iadd", "isub", "imul", "idiv", "set_dtype", "set_adaptive"):
                 writes = {op["h"]}
             for i, (x, y) in enumerate(zip(before, after)):
                 if i in writes or x is None or y is None:
